@@ -113,12 +113,31 @@ func (w *World) CheckLifecycle(out *Outcome, o *Obs) []Violation {
 		}
 		return m
 	}
+	// short-circuited: an instantiation-aware processor answered before instantiation with
+	// the registered instance itself
+	shortCircuited := map[string]string{}
+	for _, e := range evs {
+		if e.Kind != "subst" || !strings.HasPrefix(e.Detail, "beforeInst@") {
+			continue
+		}
+		id, proc := w.instByName(e.Subj), strings.TrimPrefix(e.Detail, "beforeInst@")
+		for _, pr := range w.P.Procs {
+			for _, r := range pr.Rules {
+				if pr.ID == proc && r.Target == id && r.At == sdl.CbBeforeInst && r.Action == "self" {
+					shortCircuited[id] = proc
+				}
+			}
+		}
+	}
 	for _, i := range w.P.Instances {
 		if strings.HasPrefix(i.ID, "sub:") {
 			continue
 		}
 		t := w.Types[i.Type]
 		l := get(i.ID)
+		if proc, ok := shortCircuited[i.ID]; ok && (len(l.init)+len(l.aps)+len(l.before) != 0) {
+			vs = append(vs, v("C05", "short-circuited-component-went-through-lifecycle", i.ID, fmt.Sprintf("processor %s answered PostProcessBeforeInstantiation of %s with the registered instance itself (creation is short-circuited: after-initialization callbacks only), yet the component also received before-initialization %v, AfterPropertiesSet %v, Init %v", proc, i.ID, sdl.SortedKeys(l.before), l.aps, l.init)))
+		}
 		// at most once on any run
 		if len(l.init) > 1 {
 			vs = append(vs, v("C05", "init-more-than-once", i.ID, fmt.Sprintf("Init of %s ran %d times in one start (events %v)", i.ID, len(l.init), l.init)))
@@ -539,7 +558,7 @@ func (w *World) CheckRunners(o *Obs) []Violation {
 			vs = append(vs, v("C13", "runner-invoked-after-failure", runs[faultIdx].Subj, fmt.Sprintf("runner %s failed, yet %s was invoked afterwards", runs[faultIdx].Subj, runs[faultIdx+1].Subj)))
 		}
 	}
-	if o.OK() && len(o.Faults) == 0 && !w.hasSubst() {
+	if o.OK() && !w.hasSubst() {
 		for _, i := range w.P.Instances {
 			if w.Types[i.Type].Role == "runner" && count[i.ID] != 1 {
 				vs = append(vs, v("C13", "runner-not-invoked-exactly-once", i.ID, fmt.Sprintf("runner %s was invoked %d times on a successful start", i.ID, count[i.ID])))
